@@ -18,9 +18,9 @@ type verifOpen struct {
 }
 
 type verifSandbox struct {
-	p      *interp
-	cfg    *Config
-	opens  []verifOpen
+	p                         *interp
+	cfg                       *Config
+	opens                     []verifOpen
 	noExec, noWrites, noReads bool
 }
 
@@ -29,7 +29,7 @@ func verifNewSandbox() *verifSandbox {
 	prog := verifParse(`BEGIN { }`)
 	sb.p = newInterp(prog)
 	cfg := &Config{
-		Stdin: bytes.NewReader(nil), Output: &bytes.Buffer{}, Error: &bytes.Buffer{}, Environ: []string{},
+		Stdin: bytes.NewReader([]byte("in\n")), Output: &bytes.Buffer{}, Error: &bytes.Buffer{}, Environ: []string{},
 		NoExec: sb.noExec, NoFileWrites: sb.noWrites, NoFileReads: sb.noReads,
 		ShellCommand: []string{"/nonexistent/gosym-no-shell"},
 		OpenFile: func(name string, flag int, perm os.FileMode) (*os.File, error) {
@@ -202,8 +202,12 @@ func VerifC12Operand() {
 	argv["1"] = numStr(operand)
 	p.argc = num(2)
 	p.filenameIndex = 1
-	_, err := p.nextLine()
+	line, err := p.nextLine()
 	sb.checkCommon("file operand")
+	if operand == "-" || operand == "" || operand == "v=1" {
+		// standard input stays available, also under the name "-", whatever the flags
+		verifAssert(err == nil && line == "in", "standard input (no file operand, or the operand -) was refused or not read")
+	}
 	isFile := operand == "f" || operand == "dir/f2"
 	if isFile && sb.noReads {
 		verifAssert(verifDenied(err, "NoFileReads"), "a file operand under NoFileReads did not end with the NoFileReads error")
